@@ -47,6 +47,17 @@ Theorem C08_hub_restored :
     forall t', resolve g' t' = resolve g t'.
 Proof. exact (@hub_restored_proof). Qed.
 
+(* ... and not only what the hub resolves to: the raw slots.  The caller may have a thread connection WHILE the
+   hub also has a process connection (caller_bound ... true says nothing about g_proc): the transaction goes into
+   the slot the connection was taken from, and afterwards the process slot and every thread's own slot hold what
+   they held before *)
+Theorem C08_slots_restored :
+  forall (g : gst) (t : nat) (body : list bstep) (n : nat) (is_thr : bool),
+    (t < length (g_threads g))%nat -> ts_phase (thread g t) = PIdle body -> caller_bound g t n is_thr -> g_lock g = None ->
+    let g' := run_sched g (repeat t (length body + 2)) in
+    g_proc g' = g_proc g /\ forall t', ts_slot (thread g' t') = ts_slot (thread g t').
+Proof. exact (@slots_restored_proof). Qed.
+
 (* the transaction is obsolete, its low-level connection handed back, the write lock free *)
 Theorem C08_released :
   forall (g : gst) (t : nat) (body : list bstep) (n : nat) (is_thr : bool),
@@ -101,6 +112,19 @@ Theorem C08_threads_hub :
     end.
 Proof. exact (@threads_hub_proof). Qed.
 
+(* with thread-level callers the process slot -- set or not -- is never touched, in no step of any schedule; a
+   thread's own slot holds its transaction exactly while it is inside its doInTransaction *)
+Theorem C08_threads_slots :
+  forall (g0 : gst) (sched : list nat) (t : nat),
+    start_threads g0 = true -> valid_sched g0 sched -> (t < length (g_threads g0))%nat ->
+    let g := run_sched g0 sched in
+    g_proc g = g_proc g0 /\
+    match ts_phase (thread g t) with
+    | PRun _ _ _ _ _ _ _ => ts_slot (thread g t) = Some (CTx t)
+    | _ => ts_slot (thread g t) = ts_slot (thread g0 t)
+    end.
+Proof. exact (@threads_slots_proof). Qed.
+
 Theorem C08_threads_released :
   forall (g0 : gst) (sched : list nat) (t : nat) (r : result) (x : option txinfo),
     start_threads g0 = true -> valid_sched g0 sched -> (t < length (g_threads g0))%nat ->
@@ -124,6 +148,24 @@ Definition g_thr (bodies : list (list bstep)) : gst :=
 Definition g_proc1 (body : list bstep) : gst :=
   {| g_committed := tab0; g_lock := None; g_proc := Some (CDb 0);
      g_threads := [{| ts_slot := None; ts_phase := PIdle body |}; {| ts_slot := None; ts_phase := PIdle [] |}] |}.
+(* thread connection AND process connection: thread 0 is bound to DBConnection 0, the process slot holds DBConnection 7,
+   thread 1 has nothing of its own *)
+Definition g_both (body : list bstep) : gst :=
+  {| g_committed := tab0; g_lock := None; g_proc := Some (CDb 7);
+     g_threads := [{| ts_slot := Some (CDb 0); ts_phase := PIdle body |}; {| ts_slot := None; ts_phase := PIdle [] |}] |}.
+Example C08_both_slots :
+  let body := [BUpdate 1 0 (v 9); BFail 2] in
+  let g := g_both body in
+  let g1 := run_sched g [0; 0]%nat in
+  let g' := run_sched g (repeat 0%nat (length body + 2)) in
+  caller_bound g 0 0 true /\
+  (* inside: the caller resolves to its transaction, the other thread still to the process connection *)
+  resolve g1 0 = Some (CTx 0) /\ resolve g1 1 = Some (CDb 7) /\ g_proc g1 = Some (CDb 7) /\
+  (* afterwards: exception of the body, nothing written, both slots as before *)
+  ts_phase (thread g' 0) = PDone (Raised (XUser 2) 1) (Some finished) /\ g_committed g' = tab0 /\
+  g_proc g' = Some (CDb 7) /\ ts_slot (thread g' 0) = Some (CDb 0) /\ resolve g' 1 = Some (CDb 7).
+Proof. vm_compute. repeat split. Qed.
+
 Example C08_body1_alone :
   body_result tab0 body1 = Return [3] /\
   t_rows (body_table tab0 body1) = [(1, [v 9; v 1]); (3, [v 3; None])] /\
@@ -159,7 +201,9 @@ Proof. vm_compute. repeat split. Qed.
 Print Assumptions C08_all_or_nothing.
 Print Assumptions C08_same_exception.
 Print Assumptions C08_hub_restored.
+Print Assumptions C08_slots_restored.
 Print Assumptions C08_released.
+Print Assumptions C08_threads_slots.
 Print Assumptions C08_threads_all_at_once.
 Print Assumptions C08_threads_nothing_on_raise.
 Print Assumptions C08_threads_isolated.
